@@ -58,3 +58,7 @@ func vfPrint(label string, v any)
 func vfStub(suffix string)
 func vfUnstub(suffix string)
 func vfStubCalls(suffix string) int
+
+// vfStubNondet: like vfStub, but the stubbed (pure) callee returns fresh symbolic scalars — a sound
+// over-approximation of any side-effect-free function of state the property does not constrain.
+func vfStubNondet(suffix string)
